@@ -8,7 +8,7 @@
     ([agg_spec]: length, fold_left add in time order, first strictly smaller/greater value,
     float64(sum)/float64(count), head, last). *)
 From Coq Require Import Sorting.Sorted.
-From Verif Require Import Base.Prelude Model.C20 Proofs.C20 Proofs.C20_ref Proofs.C20_sel Proofs.C20_inst.
+From Verif Require Import Base.Prelude Model.C20 Proofs.C20 Proofs.C20_ref Proofs.C20_sel Proofs.C20_inst Proofs.C20_last.
 Open Scope Z_scope.
 
 (** Generic over the value type and the accumulator: for EVERY chunking of the series into
@@ -113,12 +113,18 @@ Proof.
 Qed.
 Print Assumptions C20_pushdown_ns.
 
-(** NOT proved (tied by the correspondence check only): the windowed [last] cursor
-    ([run_last]); intended statement
-      forall stop_of B>=1 t chunks, <window hypotheses> -> Forall nonempty chunks ->
-        time_sorted (concat chunks) -> (forall p in concat chunks, MinI64 <= fst p) ->
-        exists arrs, run_model stop_of false B t Last chunks = Some arrs
-          /\ concat arrs = oracle stop_of false t Last (concat chunks). *)
+(** last with a window (block size >= 1): the cursor never indexes res[-1], terminates, and
+    yields the last point of every window. *)
+Theorem C20_pushdown_last_eq_reference :
+  forall (stop_of : Z -> Z) (B : N) (t : ty) (chunks : list (list (Z * val))),
+    (forall t, t < stop_of t) ->
+    (forall t u, t <= u < stop_of t -> stop_of u = stop_of t) ->
+    (1 <= B)%N -> Forall nonempty chunks -> time_sorted (concat chunks) ->
+    (forall p, In p (concat chunks) -> MinI64 <= fst p) ->
+    exists arrs, run_model stop_of false B t Last chunks = Some arrs
+      /\ concat arrs = oracle stop_of false t Last (concat chunks).
+Proof. intros. apply pushdown_last; assumption. Qed.
+Print Assumptions C20_pushdown_last_eq_reference.
 
 (** Non-vacuity: a series over two arrays, block size 2: the sum cursor fills its block after
     two windows, carries the rest of the FIRST input array over in tmp, and continues; the
